@@ -4,7 +4,7 @@
    (tools/tr_c02_*.py -> coq/gen/*.v), so these theorems are re-checked against what the code says now. *)
 From Coq Require Import ZArith List Bool.
 From MirV Require Import Mir.DocSpec Mir.CExpr C02.RowCheck C02.Table gen.InterpTable C02.InterpFacts
-  C02.GvnCheck gen.GvnFoldTable C02.GvnFacts.
+  C02.GvnCheck gen.GvnFoldTable C02.GvnFacts C02.MemRows.
 
 (* Interpreter (mir-interp.c): for every row of the regenerated table (every value, compare, branch
    and overflow opcode) and ALL operand values on which MIR.md defines the instruction, the row's C
@@ -46,3 +46,16 @@ Print Assumptions overflow_flags_sound.
 Theorem gvn_fold_row_sound : forall op g s, In (op, g, s) gvn_table -> gvn_row_sound op s.
 Proof. exact gvn_rows_sound. Qed.
 Print Assumptions gvn_fold_row_sound.
+
+(* Memory operands in the interpreter (the LD and ST macros behind the IC_LDxx and IC_STxx codes): a load of MIR type ty
+   yields load_ext ty of the cell (sign / zero extension of narrow integers by the signedness of the
+   type), a store writes store_trunc ty of the value (truncation to the memory type); F/D/LD cells are
+   moved unchanged.  All ten load and ten store pseudo instructions are present. *)
+Theorem ld_st_ext_trunc_sound : forall name s, In (name, s) interp_aux_table ->
+  match aux_type name with
+  | Some (true, ty) => forall bytes, stmt_load s bytes = Some (load_ext ty bytes)
+  | Some (false, ty) => forall p rest, stmt_store (p :: rest) s = Some (store_trunc ty p)
+  | None => False
+  end.
+Proof. exact interp_mem_rows. Qed.
+Print Assumptions ld_st_ext_trunc_sound.
